@@ -575,7 +575,10 @@ class ExprMixin:
                 arr = z3.Lambda([k], z3.Select(l.arr, k + a)) if not z3.is_int_value(a) or a.as_long() != 0 else l.arr
             ln = length.as_long() if z3.is_int_value(length) else length
             cls = "%s[%s:%s]" % (l.cls, lo, hi) if l.cls else None
-            return VList(ln, arr, l.elem, cls)
+            out = VList(ln, arr, l.elem, cls)
+            base, off = getattr(l, "slice_of", (l.arr, z3.IntVal(0)))
+            out.slice_of = (base, z3.simplify(off + a))     # xs[a:b] is a window of the base array
+            return out
         if self.kind_of(base) == "str":
             return self.str_slice(base, lo, hi)
         raise GenError("slice of %r" % (base,))
